@@ -118,13 +118,13 @@ impl TryInto<bool> for &Value<'_> {
     type Error = Error;
 
     fn try_into(self) -> Result<bool, Self::Error> {
+        // Character data is a mnemonic: its case does not matter.
+        let is = |data: &str, mnemonic: &str| data.eq_ignore_ascii_case(mnemonic);
         match self {
-            Value::Characters("ON" | "on")
-            | Value::Characters("TRUE" | "true")
-            | Value::Decimal("1") => Ok(true),
-            Value::Characters("OFF" | "off")
-            | Value::Characters("FALSE" | "false")
-            | Value::Decimal("0") => Ok(false),
+            Value::Decimal("1") => Ok(true),
+            Value::Decimal("0") => Ok(false),
+            Value::Characters(data) if is(data, "ON") || is(data, "TRUE") => Ok(true),
+            Value::Characters(data) if is(data, "OFF") || is(data, "FALSE") => Ok(false),
             _ => Err(Error::IllegalParameterValue),
         }
     }
